@@ -1,6 +1,7 @@
 package main
 
 import (
+	"verif/internal/refauth2"
 	"bytes"
 	"encoding/json"
 	"fmt"
@@ -155,6 +156,7 @@ func c12RunHistory(c *WCase, res *WResult) {
 		tf.SetFS(ffs)
 	}
 	reads := 0
+	neverWritten := 0
 	fail := func(i int, kind, f string, a ...any) {
 		res.Val = fmt.Sprintf("VIOLATION|%s|step %d (%s on %s): %s", kind, i, h.Ops[i].Op, c12Vars[h.Ops[i].Var].Name, fmt.Sprintf(f, a...))
 	}
@@ -183,6 +185,18 @@ func c12RunHistory(c *WCase, res *WResult) {
 				return
 			}
 			model[c12File(op.Var)] = db.Bytes()
+		case "authblob":
+			// a prepared authenticated update (as sbvarsign/sign-efi-sig-list write to disk) handed
+			// to WriteVar: descriptor with a chosen timestamp ‖ database; the store keeps the database
+			db := c12dbArr(op.N, op.Salt, op.Rev, op.Split)
+			ts := c12Stamp(op.Key)
+			certData := bytes.Repeat([]byte{0x30, byte(op.Salt), 0x5c}, 13+op.Salt%7)
+			blob := append(refauth2.BuildAuth2(ts, 0x0200, 0x0EF1, fromLib(signature.EFI_CERT_TYPE_PKCS7_GUID).Wire(), certData), db.Bytes()...)
+			if err := e.WriteVar(v, rawVal(blob)); err != nil {
+				fail(i, "write-error", "WriteVar(prepared authenticated update, timestamp %x): %v", ts[:7], err)
+				return
+			}
+			model[c12File(op.Var)] = db.Bytes()
 		case "failwrite":
 			if ffs == nil {
 				continue
@@ -201,7 +215,13 @@ func c12RunHistory(c *WCase, res *WResult) {
 			var spy spyVal
 			err := e.GetVar(v, &spy)
 			if !ok {
-				continue // never written: not judged
+				// never written in this store (and not part of what it was created with): it does not exist
+				if err == nil {
+					fail(i, "never-written-variable-read", "GetVar succeeded (%d bytes) for a variable this store was never given", len(spy.got))
+					return
+				}
+				neverWritten++
+				continue
 			}
 			reads++
 			if err != nil {
@@ -233,6 +253,11 @@ func c12RunHistory(c *WCase, res *WResult) {
 				continue
 			}
 			if !ok {
+				if err == nil && db != nil && len(db.Bytes()) > 0 {
+					fail(i, "never-written-variable-read", "the typed accessor returned a database of %d bytes for a variable this store was never given", len(db.Bytes()))
+					return
+				}
+				neverWritten++
 				continue
 			}
 			reads++
@@ -250,7 +275,7 @@ func c12RunHistory(c *WCase, res *WResult) {
 			}
 		}
 	}
-	res.Val = fmt.Sprintf("ok reads=%d", reads)
+	res.Val = fmt.Sprintf("ok reads=%d absent=%d", reads, neverWritten)
 }
 
 // c12Directed: short histories aimed at neighbouring variables — names that differ in case only,
@@ -274,8 +299,37 @@ var c12Directed = func() [][]c12Op {
 			[]c12Op{{Op: "signed", Var: 2, N: 3, Salt: 1}, {Op: "db", Var: 8, N: 1, Salt: 3}, {Op: "get", Var: 2}, {Op: "signed", Var: 8, N: 0, Salt: 1}, {Op: "get", Var: 2}, {Op: "get", Var: 8}},
 		)
 	}
+	// every calendar shape of the timestamp of a prepared update, eight per history
+	for s := 0; s < len(c12Stamps); s += 8 {
+		var h []c12Op
+		for k := s; k < s+8 && k < len(c12Stamps); k++ {
+			vi := []int{2, 0, 3, 1}[k%4]
+			h = append(h, c12Op{Op: "db", Var: vi, N: 4, Salt: 9}, c12Op{Op: "authblob", Var: vi, N: 1 + k%3, Salt: 1 + k%5, Key: k}, c12Op{Op: "get", Var: vi}, c12Op{Op: "getdb", Var: vi})
+		}
+		out = append(out, h)
+	}
 	return out
 }()
+
+// c12Stamps: EFI_TIME values (year, month, day, hour, minute, second) of prepared updates: the last
+// days of every month, leap days, first and last second of a year, far past and future.
+var c12Stamps = func() [][6]int {
+	var out [][6]int
+	for m := 1; m <= 12; m++ {
+		last := []int{31, 28, 31, 30, 31, 30, 31, 31, 30, 31, 30, 31}[m-1]
+		for d := last - 3; d <= last; d++ {
+			out = append(out, [6]int{2025, m, d, 12, 30, 15})
+		}
+	}
+	out = append(out, [6]int{2024, 2, 29, 0, 0, 0}, [6]int{2000, 2, 29, 23, 59, 59}, [6]int{2025, 1, 1, 0, 0, 0}, [6]int{2025, 12, 31, 23, 59, 59},
+		[6]int{1998, 6, 15, 1, 2, 3}, [6]int{2099, 12, 31, 23, 59, 59}, [6]int{9999, 12, 31, 23, 59, 59}, [6]int{2038, 1, 19, 3, 14, 8}, [6]int{1970, 1, 1, 0, 0, 0})
+	return out
+}()
+
+func c12Stamp(k int) []byte {
+	s := c12Stamps[((k%len(c12Stamps))+len(c12Stamps))%len(c12Stamps)]
+	return []byte{byte(s[0]), byte(s[0] >> 8), byte(s[1]), byte(s[2]), byte(s[3]), byte(s[4]), byte(s[5]), 0, 0, 0, 0, 0, 0, 0, 0, 0}
+}
 
 func checkC12(r *mon.Run) {
 	r.Rule = "seeded histories (1..30 ops) over PK, KEK, db, dbx, db through a caller-assembled definition, two ordinary variables, two variables whose names differ in case only, a zero-mask variable and BootOrder (2..8 of them per history) plus 18 directed histories on neighbouring variables: WriteVar(raw bytes), WriteVar(database of n entries), WriteSignedUpdate(database), GetVar(raw spy), GetPK/GetKEK/Getdb/Getdbx; value sizes grow, shrink (incl. to empty) and repeat, interleaved across variables, stores created empty or pre-populated through With(); every read after a write is compared with a per-variable register model (signed writes: the payload). distinct = op sequences with >=1 shrinking overwrite or signed write"
@@ -343,6 +397,10 @@ func checkC12(r *mon.Run) {
 				op.Salt = 1 + rng.Intn(3) // few salts: the same entries come back in other arrangements
 				op.Rev, op.Split = rng.Intn(2) == 0, rng.Intn(3) == 0
 				op.Key = rng.Intn(4)
+				if rng.Intn(3) == 0 {
+					op.Op = "authblob"
+					op.Key = rng.Intn(len(c12Stamps))
+				}
 				interesting[i] = true
 			case k < 8 && c12IsDB(vi):
 				op.Op = "db"
@@ -367,7 +425,7 @@ func checkC12(r *mon.Run) {
 					rng.Read(op.Bytes)
 				}
 			}
-			if op.Op == "db" || op.Op == "signed" {
+			if op.Op == "db" || op.Op == "signed" || op.Op == "authblob" {
 				nl := 0
 				if op.N > 0 {
 					nl = 28 + 48*op.N
@@ -416,8 +474,9 @@ func checkC12(r *mon.Run) {
 			parts := strings.SplitN(rs.Val, "|", 3)
 			r.Violation("C12|"+parts[1], parts[2]+" — history "+descs[i], replay)
 		case strings.HasPrefix(rs.Val, "ok"):
-			var reads int
-			fmt.Sscanf(rs.Val, "ok reads=%d", &reads)
+			var reads, absent int
+			fmt.Sscanf(rs.Val, "ok reads=%d absent=%d", &reads, &absent)
+			r.Count("reads_of_never_written_variables_rejected", int64(absent))
 			r.Count("histories_ok", 1)
 			r.Count("reads_checked", int64(reads))
 			if interesting[i] {
